@@ -7,9 +7,9 @@ use std::{
     sync::atomic::{AtomicUsize, Ordering},
 };
 
-#[cfg(not(feature = "circ_verif"))]
+#[cfg(not(feature = "circ_verif_auto"))]
 use atomic::Atomic;
-#[cfg(feature = "circ_verif")]
+#[cfg(feature = "circ_verif_auto")]
 use crate::verif::HookedAtomic as Atomic;
 use static_assertions::const_assert;
 
